@@ -1,6 +1,7 @@
 SPECIFICATION Spec
 CONSTANTS MaxFills = 6
   Weights <- W5
+  Twin = TRUE
   EdgeChoices <- EdgesHist
 INVARIANT HistoryRef
 INVARIANT Conservation
